@@ -358,6 +358,15 @@ pub fn run(ctx: &mut Ctx) {
                 }
             }
         }
+        // history: right after the valid input, a DIFFERENT byte string of the same length and the same CRC-32
+        // (a decoder must judge every input on its own bytes)
+        if case % 3 == 0 {
+            if let Some(twin) = crate::adv::same_len_same_crc(&valid) {
+                ctx.count("same_length_same_crc_twins");
+                judge(ctx, &valid, "valid");
+                judge(ctx, &twin, "byte:same-crc-twin");
+            }
+        }
         // non-canonical CBOR encodings of the same item
         let n = count_nodes(&item);
         for _ in 0..5 {
